@@ -23,7 +23,7 @@ LEVEL_NOTE = ('Flux values from a fixed + seed-derived alphabet; the first file 
 RULE = ("cases: (n_ap, distance, n_wav, spectral order) configurations x stored unit A; executions: for every B: read A as B, write, read back as A, and for every C compare "
         "read(B-file, C) with read(A-file, C); non-trivial = distinct (configuration, A, B) with A != B")
 ASSUMPTIONS = ["positive finite fluxes and frequencies", "distance taken from the file header"]
-REQUIRED_CLASSES = ['fluxes-spanning-many-decades', 'spectral-axis-requested-in-GHz-and-nm', 'unsupported-error-unit-refused', 'legacy-unit-strings', 'zero-flux-cell', 'error-column-in-other-unit', 'float32-file', 'distance-keyword-absent', 'pair-different-family', 'chain-ABA', 'chain-ABC', 'unsupported-refused', 'luminosity-with-distance!=1kpc', 'nu-decreasing-in-file', 'multi-aperture']
+REQUIRED_CLASSES = ['intermediate-object-in-wavelength-order', 'fluxes-spanning-many-decades', 'spectral-axis-requested-in-GHz-and-nm', 'unsupported-error-unit-refused', 'legacy-unit-strings', 'zero-flux-cell', 'error-column-in-other-unit', 'float32-file', 'distance-keyword-absent', 'pair-different-family', 'chain-ABA', 'chain-ABC', 'unsupported-refused', 'luminosity-with-distance!=1kpc', 'nu-decreasing-in-file', 'multi-aperture']
 TIMEOUT = {'quick': 300, 'thorough': 1800}
 
 UNITS = ['mJy', 'Jy', 'erg / (cm2 s)', 'erg / s', 'W / m2']
@@ -142,10 +142,14 @@ def _one_distance(ctx, case, rec, d):
         uB = u.Unit(B)
         # the spectral axis may be asked for in other units too; fluxes do not depend on that
         other_axis = ((UNITS.index(B) + n_wav + n_ap) % 2 == 1)
+        by_wav = (not other_axis) and ((UNITS.index(B) + n_wav + n_ap) % 4 == 0)
         try:
             if other_axis:
                 rb = SED.read(fa, unit_flux=uB, unit_freq=u.GHz, unit_wav=u.nm)
                 rec.cls('spectral-axis-requested-in-GHz-and-nm')
+            elif by_wav:
+                rb = SED.read(fa, unit_flux=uB, order='wav')          # the object (and the file written from it below) in increasing wavelength
+                rec.cls('intermediate-object-in-wavelength-order')
             else:
                 rb = SED.read(fa, unit_flux=uB)
         except Exception as e:
@@ -166,7 +170,8 @@ def _one_distance(ctx, case, rec, d):
         if 'l' in (fa_, fb_) and fa_ != fb_ and case['dist'] != '1kpc':
             rec.cls('luminosity-with-distance!=1kpc')
         rec.outcome((A, B, round(float(np.log10(expB[0, 0] + 1e-300)), 6)))
-        if not (rb.flux.unit == uB and _close(rb.flux.value, expB, T) and _close(rb.error.value, expBe, T) and _close(rb.nu.to(u.Hz).value, nu_inc, max(T, 1e-12))):
+        rv = slice(None, None, -1) if by_wav else slice(None)          # (an object read in wavelength order runs the other way)
+        if not (rb.flux.unit == uB and _close(rb.flux.value[:, rv], expB, T) and _close(rb.error.value[:, rv], expBe, T) and _close(rb.nu.to(u.Hz).value[rv], nu_inc, max(T, 1e-12))):
             rec.violation('convert|%s->%s' % (fa_, fb_), sub, {'got': rb.flux.value[0][:4], 'expected': expB[0][:4], 'nu': nu_inc[:4], 'distance_cm': dist})
             continue
         # A -> B -> A through a real file written by the library
